@@ -588,6 +588,78 @@ pub fn hist<F: BoolExt>(args: &Args) {
     write_summary(&dir, &format!("hist-{}", F::KIND), &out, json!({"ops":ops_done}));
 }
 
+/// C05: automatic background collections.  The capacity is small (128..512),
+/// so the node count crosses the collector's high-water mark (95 %) while
+/// garbage accumulates; the collector thread then runs concurrently with the
+/// history.  Snapshots are taken under the exclusive manager lock.
+pub fn bggc<F: BoolExt>(args: &Args) {
+    let dir = args.get("out", "/verif/out/tmp");
+    let seed = args.num("seed", 1);
+    let thorough = args.get("tier", "quick") == "thorough";
+    let mut rng = Rng::new(seed ^ 0xb66c);
+    let mut out = TraceOut::new(&dir, &format!("bggc-{}", F::KIND), 2000);
+    let mut triggered = 0u64;
+    let mut runs = 0u64;
+    for _ in 0..(if thorough { 60 } else { 10 }) {
+        let cap = [128usize, 200, 384, 512][rng.below(4)];
+        let n = 7 + rng.below(3) as u32;
+        let mut s: Session<F> = Session::new(&mut out, cap, 64, [1u32, 2, 4][rng.below(3)]);
+        s.add_vars(n);
+        for v in 0..n {
+            s.var(v);
+        }
+        runs += 1;
+        let gc0 = s.mref.with_manager_shared(|m| m.gc_count());
+        let mut steps = 0;
+        // produce garbage: results are dropped at once, operands stay
+        while steps < 400 && !s.dead {
+            steps += 1;
+            let live = s.live();
+            let a = live[rng.below(live.len())];
+            let b = live[rng.below(live.len())];
+            let r = s.bin(BIN_OPS[rng.below(8)], a, b);
+            match r {
+                Some(x) => {
+                    if live.len() > 12 || rng.chance(2, 3) {
+                        s.drop_h(x);
+                    }
+                }
+                None => {
+                    // out of memory is legitimate here: make room and go on
+                    let l = s.live();
+                    for &x in l.iter().skip(n as usize) {
+                        s.drop_h(x);
+                    }
+                    std::thread::sleep(std::time::Duration::from_millis(2));
+                }
+            }
+            if steps % 40 == 0 {
+                s.snap();
+                s.obs();
+            }
+            let g = s.mref.with_manager_shared(|m| m.gc_count());
+            if g > gc0 + 2 {
+                break;
+            }
+        }
+        let g = s.mref.with_manager_shared(|m| m.gc_count());
+        if g > gc0 {
+            triggered += 1;
+        }
+        if !s.dead {
+            s.obs();
+            s.snap();
+            for x in s.live() {
+                s.drop_h(x);
+            }
+            s.gc();
+            s.snap();
+        }
+    }
+    out.finish();
+    write_summary(&dir, &format!("bggc-{}", F::KIND), &out, json!({"rows":runs,"nontrivial":triggered,"bg_collections_seen":triggered}));
+}
+
 /// Re-execute the calls of recorded histories (trace files written by other
 /// drivers) on managers with a different configuration (cache capacity,
 /// thread count, build features) and record a new trace.  The results of the
